@@ -28,6 +28,7 @@ class SqlWorld:
         self.path = path
         self.conns = []
         self.log = []  # (conn#, kind, sql, params)
+        self.errors = []  # (conn#, sql, repr(exception)) raised by the engine
         self.fault = None
         self.counting = False
         self.count = 0
@@ -231,6 +232,10 @@ class ShimCursor:
             except sqlite3.OperationalError as e:
                 if "locked" in str(e):
                     raise HarnessError("unmodelled SQLITE_BUSY on %r" % (sql,)) from e
+                w.errors.append((c.n, sql, repr(e)))
+                raise
+            except Exception as e:
+                w.errors.append((c.n, sql, repr(e)))
                 raise
             self.cur = cur
             self.description = cur.description
